@@ -35,13 +35,13 @@ theorem startup_prefix (c : Config) (k : Nat) :
 /-! ### a strike during the start-up: the error is ErrProgramKilled -/
 
 /-- the loop, if it has ended, has ended by the cancelled context, and Run's error, if computed, is
-ErrProgramKilled; no user code in progress on the loop or the listen goroutine -/
+ErrProgramKilled -/
 def CtxOnly (s : St) : Prop :=
-  LoopQuiet s ∧ (∀ cz, s.el = .exited cz → cz = .ctx) ∧
+  (∀ cz, s.el = .exited cz → cz = .ctx) ∧
   (s.runPc = .tail ∨ s.runPc = .returned → s.runErr = .killed)
 
 theorem ctxOnly_init0 (c : Config) : CtxOnly (init0 c) := by
-  simp [CtxOnly, LoopQuiet, init0]
+  simp [CtxOnly, init0]
 
 /-- a strike: Kill() (or a panic handler on a command goroutine), or cancellation of the supplied
 context -/
@@ -49,23 +49,31 @@ def strikeLabel : Label → Bool
   | .killCall | .parentCancel => true
   | _ => false
 
-/-- progress steps, returns of the start-up's user code and strikes keep `CtxOnly`: none of them
-hands a message to the loop, none is a failure of the start-up -/
+/-- progress steps, returns of user code and strikes keep `CtxOnly`: none of them hands a message to
+the loop, none is a failure or a panic -/
 theorem ctxOnly_step {s s' : St} {l : Label} (hl : scheduleLabel l = true ∨ strikeLabel l = true)
     (hs : step s l = some s') (h : CtxOnly s) : CtxOnly s' := by
-  obtain ⟨hq, h2, h3⟩ := h
-  have hq' : LoopQuiet s' := by
-    rcases hl with hl | hl
-    · exact loopQuiet_schedule hl hs hq
-    · cases l <;> simp [strikeLabel] at hl <;> (simp only [step] at hs; cases hs; exact hq)
-  refine ⟨hq', ?_⟩
-  clear hq hq'
+  obtain ⟨h2, h3⟩ := h
+  unfold CtxOnly
   step_cases hs l
   all_goals first
-    | (simp [scheduleLabel, progressLabel, startupReturn, strikeLabel] at hl; done)
+    | (simp [scheduleLabel, progressLabel, userReturn, strikeLabel] at hl; done)
     | exact ⟨h2, h3⟩
     | (simp_all; done)
     | (simp_all [errOf]; done)
+
+/-- ... and so does the loop's receiving an Exec message -/
+theorem ctxOnly_recv_exec {s s' : St} {i : Nat} {cl : Caller} (hi : s.senders[i]? = some cl)
+    (hk : cl.kind = .exec) (hs : step s (.elRecvSender i) = some s') (h : CtxOnly s) : CtxOnly s' := by
+  obtain ⟨h2, h3⟩ := h
+  simp only [step, hi] at hs
+  split at hs
+  · cases hs
+    refine ⟨?_, h3⟩
+    intro cz hcz
+    simp only [hk] at hcz
+    cases hcz
+  · cases hs
 
 theorem ctxOnly_runLabels : ∀ (ls : List Label) {s s' : St},
     (∀ l ∈ ls, scheduleLabel l = true ∨ strikeLabel l = true) → runLabels s ls = some s' →
@@ -82,24 +90,57 @@ theorem ctxOnly_runLabels : ∀ (ls : List Label) {s s' : St},
         (ctxOnly_step (hall l List.mem_cons_self) h1 hc)
     · cases h
 
-theorem startupSchedule_scheduleLabel : ∀ l ∈ startupSchedule, scheduleLabel l = true := by
+theorem startupSchedule_startupScheduleLabel : ∀ l ∈ startupSchedule, startupScheduleLabel l = true := by
   decide
 
-/-- from a reachable state in which termination has begun and `CtxOnly` holds, at most `rank s`
-steps - progress steps and returns of the start-up's user code - bring Run to its return, and the
+/-- from a reachable state in which termination has begun and `CtxOnly` holds, at most
+`rank s + pendW s` steps - progress steps and returns of user code - bring Run to its return, and the
 error there is ErrProgramKilled -/
 theorem run_returns_killed {c : Config} {s : St} (hr : Reachable c s) (ht : Terminating s)
     (hc : CtxOnly s) :
-    ∃ ls s', (∀ l ∈ ls, scheduleLabel l = true) ∧ ls.length ≤ rank s ∧ runLabels s ls = some s' ∧
-      s'.runPc = .returned ∧ s'.runErr = .killed := by
+    ∃ ls s', (∀ l ∈ ls, scheduleLabel l = true) ∧ ls.length ≤ rank s + pendW s ∧
+      runLabels s ls = some s' ∧ s'.runPc = .returned ∧ s'.runErr = .killed := by
   obtain ⟨ls, s', h1, h2, h3, h4, h5⟩ :=
-    schedule_exists scheduleLabel (fun s => Reachable c s ∧ Terminating s ∧ CtxOnly s)
-      (fun _ _ _ hp hs => rank_decreases_schedule hp hs)
+    schedule_exists scheduleLabel (fun s => Reachable c s ∧ Terminating s ∧ CtxOnly s) sched
+      (fun _ _ _ hp hs => sched_decreases hp hs)
       (fun _ _ l hi hp hs =>
         ⟨Reachable.step l hi.1 hs, terminating_stable hs hi.2.1, ctxOnly_step (Or.inl hp) hs hi.2.2⟩)
-      (fun _ hi hn => no_deadlock_schedule hi.1 hi.2.1 hn hi.2.2.1)
-      (rank s) (Nat.le_refl _) ⟨hr, ht, hc⟩
-  exact ⟨ls, s', h1, h2, h3, h5, h4.2.2.2.2 (Or.inr h5)⟩
+      (fun _ hi hn => no_deadlock_schedule hi.1 hi.2.1 hn)
+      (sched s) (Nat.le_refl _) ⟨hr, ht, hc⟩
+  exact ⟨ls, s', h1, h2, h3, h5, h4.2.2.2 (Or.inr h5)⟩
+
+/-- the same outside an Exec with no user code in progress on the loop or the listen goroutine: at most
+`rank s` steps - progress steps and the returns of the start-up's user code -/
+theorem run_returns_killed_quiet {c : Config} {s : St} (hr : Reachable c s) (ht : Terminating s)
+    (hc : CtxOnly s) (hq : LoopQuiet s) (hex : s.el.inExec = false) :
+    ∃ ls s', (∀ l ∈ ls, startupScheduleLabel l = true) ∧ ls.length ≤ rank s ∧
+      runLabels s ls = some s' ∧ s'.runPc = .returned ∧ s'.runErr = .killed := by
+  obtain ⟨ls, s', h1, h2, h3, h4, h5⟩ :=
+    schedule_exists startupScheduleLabel
+      (fun s => Reachable c s ∧ Terminating s ∧ CtxOnly s ∧ LoopQuiet s ∧ s.el.inExec = false) rank
+      (fun _ _ _ hp hs => rank_decreases_startup hp hs)
+      (fun _ _ l hi hp hs =>
+        ⟨Reachable.step l hi.1 hs, terminating_stable hs hi.2.1,
+          ctxOnly_step (Or.inl (startupScheduleLabel_schedule l hp)) hs hi.2.2.1,
+          quiet_startupSchedule hp hs hi.2.2.2.1 hi.2.2.2.2⟩)
+      (fun _ hi hn => no_deadlock_startup hi.1 hi.2.1 hn hi.2.2.2.1 hi.2.2.2.2)
+      (rank s) (Nat.le_refl _) ⟨hr, ht, hc, hq, hex⟩
+  exact ⟨ls, s', h1, h2, h3, h5, h4.2.2.1.2 (Or.inr h5)⟩
+
+theorem quiet_runLabels : ∀ (ls : List Label) {s s' : St},
+    (∀ l ∈ ls, startupScheduleLabel l = true) → runLabels s ls = some s' →
+    LoopQuiet s → s.el.inExec = false → LoopQuiet s' ∧ s'.el.inExec = false := by
+  intro ls
+  induction ls with
+  | nil => intro s s' _ h hq hx; simp only [runLabels] at h; cases h; exact ⟨hq, hx⟩
+  | cons l ls ih =>
+    intro s s' hall h hq hx
+    simp only [runLabels] at h
+    split at h
+    · rename_i s1 h1
+      obtain ⟨a, b⟩ := quiet_startupSchedule (hall l List.mem_cons_self) h1 hq hx
+      exact ih (fun l' hl' => hall l' (List.mem_cons_of_mem _ hl')) h a b
+    · cases h
 
 /-- A STRIKE AT ANY POINT OF THE START-UP.  After any prefix of the fault-free start-up schedule
 a Kill() / a cancellation of the supplied context is enabled, and after it at most `rank` steps -
@@ -108,22 +149,26 @@ return with ErrProgramKilled -/
 theorem strike_during_startup (c : Config) (k : Nat) (strike : Label) (hst : strikeLabel strike = true) :
     ∃ s, runLabels (init0 c) (startupSchedule.take k) = some s ∧
       ∃ s1, step s strike = some s1 ∧
-        ∃ ls s', (∀ l ∈ ls, scheduleLabel l = true) ∧ ls.length ≤ rank s1 ∧
+        ∃ ls s', (∀ l ∈ ls, startupScheduleLabel l = true) ∧ ls.length ≤ rank s1 ∧
           runLabels s1 ls = some s' ∧ s'.runPc = .returned ∧ s'.runErr = .killed := by
   obtain ⟨s, hrun, hr⟩ := startup_prefix c k
+  have hin : ∀ l ∈ startupSchedule.take k, startupScheduleLabel l = true :=
+    fun l hl => startupSchedule_startupScheduleLabel l (List.mem_of_mem_take hl)
   have hc : CtxOnly s := ctxOnly_runLabels _
-    (fun l hl => Or.inl (startupSchedule_scheduleLabel l (List.mem_of_mem_take hl))) hrun (ctxOnly_init0 c)
+    (fun l hl => Or.inl (startupScheduleLabel_schedule l (hin l hl))) hrun (ctxOnly_init0 c)
+  obtain ⟨hq, hx⟩ := quiet_runLabels _ hin hrun (by simp [LoopQuiet, init0]) (by simp [init0, ElPc.inExec])
   refine ⟨s, hrun, ?_⟩
   cases strike <;> simp [strikeLabel] at hst
   · -- killCall
     have hs1 : step s .killCall = some { s with killers := s.killers ++ [.cancel] } := rfl
     refine ⟨_, hs1, ?_⟩
-    exact run_returns_killed (Reachable.step _ hr hs1) (Or.inr (Or.inr (Or.inl (by simp))))
-      (ctxOnly_step (Or.inr rfl) hs1 hc)
+    exact run_returns_killed_quiet (Reachable.step _ hr hs1) (Or.inr (Or.inr (Or.inl (by simp))))
+      (ctxOnly_step (Or.inr rfl) hs1 hc) hq hx
   · -- parentCancel
     have hs1 : step s .parentCancel = some { s with ctxDone := true } := rfl
     refine ⟨_, hs1, ?_⟩
-    exact run_returns_killed (Reachable.step _ hr hs1) (Or.inl rfl) (ctxOnly_step (Or.inr rfl) hs1 hc)
+    exact run_returns_killed_quiet (Reachable.step _ hr hs1) (Or.inl rfl)
+      (ctxOnly_step (Or.inr rfl) hs1 hc) hq hx
 
 /-! ### Run's error is fixed once Run is past its loop / its start-up -/
 
@@ -155,6 +200,19 @@ theorem pastLoop_runLabels : ∀ (ls : List Label) {s s' : St}, runLabels s ls =
     split at h
     · rename_i s1 h1
       exact ih h (pastLoop_stable h1 hp)
+    · cases h
+
+/-- the loop never leaves `exited`, along any schedule -/
+theorem el_exited_runLabels {c : Cause} : ∀ (ls : List Label) {s s' : St},
+    runLabels s ls = some s' → s.el = .exited c → s'.el = .exited c := by
+  intro ls
+  induction ls with
+  | nil => intro s s' h he; simp only [runLabels] at h; cases h; exact he
+  | cons l ls ih =>
+    intro s s' h he
+    simp only [runLabels] at h
+    split at h
+    · rename_i s1 h1; exact ih h (el_exited_stable h1 he)
     · cases h
 
 /-- Run never un-returns, along any schedule -/
@@ -223,8 +281,10 @@ theorem failure_returns {c : Config} {s s' : St} {l : Label} {e : ErrClass} (hr 
   have hp'' := pastLoop_runLabels ls hrun hp
   have he'' : s''.runErr = e := by rw [err_fixed_runLabels ls hrun hp, he]
   have ht'' := terminating_runLabels ls hrun ht
+  have hex : s''.el.inExec = false := by
+    rcases inv_err hr'' hp'' with ⟨cz, _, h1, _⟩ | ⟨h1, _⟩ <;> rw [h1] <;> rfl
   obtain ⟨ps, s3, a, b, c', d⟩ := run_returns_past hr'' ht'' hc
-    (fun p h => by rcases hp'' with h' | h' <;> rw [h'] at h <;> cases h)
+    (fun p h => by rcases hp'' with h' | h' <;> rw [h'] at h <;> cases h) hex
   exact ⟨ps, s3, a, b, c', d, by rw [err_fixed_runLabels ps c' hp'', he'']⟩
 
 /-! ### the context was cancelled before the loop began -/
@@ -266,8 +326,10 @@ theorem struckEarly_runLabels {c : Config} : ∀ (ls : List Label) {s s' : St}, 
 /-! ### the terminal modes when Run returns -/
 
 /-- before the mode sequences of the start-up have been written, when Run's own shutdown is done and
-when Run has returned, no mode sequence is outstanding: whatever the killers did in between, Run's
-own `restoreTerminalState` is the last writer of Run's goroutine -/
+when Run has returned, no mode sequence is outstanding: whatever the killers did in between and
+whatever an Exec wrote (RestoreTerminal writes the mode sequences again, on the loop's goroutine,
+while Run is in its loop), Run's own `restoreTerminalState` comes after the loop's end and is the last
+writer -/
 structure InvModes (s : St) : Prop where
   early : ∀ p, s.runPc = .starting p → p.afterNewRenderer = false ∨ p = .modeWrites → s.modesDirty = false
   done : s.runPc = .tail → s.runSh = .done → s.modesDirty = false
@@ -276,13 +338,15 @@ structure InvModes (s : St) : Prop where
 theorem inv_modes {c : Config} {s : St} (hr : Reachable c s) : InvModes s := by
   refine reachable_induct InvModes ?_ ?_ hr
   · constructor <;> simp [init0]
-  · intro s s' l _ ih hs
+  · intro s s' l hrs ih hs
+    have X : s.el.inExec = true → s.runPc = .loop := fun h => (exec_in_loop hrs h).1
     obtain ⟨h1, h2, h3⟩ := ih
     step_cases hs l
     all_goals constructor
     all_goals first
       | assumption
       | (simp_all [StartPc.afterNewRenderer]; done)
+      | (have := X (by simp_all [ElPc.inExec]); simp_all; done)
 
 /-! ### the renderer's halt before the listen goroutine exists -/
 
